@@ -52,7 +52,9 @@ def run_impl(cfg):
             return {'ctor': '%s: %s' % (type(e).__name__, e)}
         B = int(sw.bufferSize)
         names = [n for g in groups for n in g]
-        out = {'ctor': 'ok', 'buffer': B, 'steps': [],
+        blocks = {n: ([int(x) for x in sw.getLayout(n).starts], [int(x) for x in sw.getLayout(n).ends], [int(x) for x in sw.getLayout(n).dims_order])
+                  for n in names}
+        out = {'ctor': 'ok', 'buffer': B, 'steps': [], 'blocks': blocks,
                'routes': [[None if a == b else list(sw._route_map[a][b]) for b in names] for a in names] if len(names) > 1 else None}
         bufs = [np.full(B, -1, dtype=G.dtype), np.full(B, -2, dtype=G.dtype), np.full(B, -3, dtype=G.dtype)]
         cur = start
@@ -139,6 +141,24 @@ def check_one(chk, drv, cfg):
         if not any('refused' in s for s in mw.get('steps', [])):
             chk.diff('transpose refusal', case, 'model: ok', res.error_kind())
         return
+    # ---- oracle: in every layout the blocks of all ranks tile the global index space, every point owned by equally many ranks
+    #      (world size / number of processes of the layout's handler: the replicas)
+    names_all = [n for g in cfg['groups'] for n in g]
+    hof_all = {n: gi for gi, g in enumerate(cfg['groups']) for n in g}
+    for n in names_all:
+        cnt = np.zeros(cfg['ext'], dtype=int)
+        for v in vals:
+            st, en, order = v['blocks'][n]
+            sl = [slice(0, 0)] * len(order)
+            for pos, d in enumerate(order):
+                sl[d] = slice(st[pos], en[pos])
+            cnt[tuple(sl)] += 1
+        want = cfg['world'] // int(np.prod(as_lists(cfg['nprocs'])[hof_all[n]]))
+        if not (cnt == want).all():
+            bad = np.argwhere(cnt != want)[0]
+            chk.fail('C03:tiling', 'the blocks of layout %s do not tile the global array: global index %s is owned by %d ranks instead of %d'
+                     % (n, [int(x) for x in bad], int(cnt[tuple(bad)]), want), dict(case, layout=n))
+            return
     # ---- static data
     if [v['buffer'] for v in vals] != ms['buffer']:
         chk.diff('bufferSize', case, ms['buffer'], [v['buffer'] for v in vals])
@@ -190,6 +210,9 @@ def gen(rng, it, quick):
         nprocs = [[p0, p1]]
         for _ in range(k - 1):
             nprocs.append(rng.choice([[p0], [p1], [1], [p1, p0], [p0, p1], [p0, 1], [1, p1]]))
+        if p0 == p1 and p0 > 1 and rng.random() < 0.5:
+            # two 2-D handlers on a square process grid (+ a 1-D one that can connect them): the second must get BOTH sub-communicators
+            nprocs = [[p0, p1], [p0, p1], [p0]]
         groups = []
         used = set()
         for gi, n in enumerate(nprocs):
